@@ -47,7 +47,7 @@ def run(ctx):
         cp = repo.find_method(ci, "copy")
         if cp is None:
             raise AnalysisError(f"{cname}.copy not found (anchor vanished)")
-        n_flows += check_copy(res, cp, cname)
+        n_flows += check_copy(res, cp, cname, repo)
         check_pickle(repo, res, ci, cname)
     n_flows += check_converters(repo, res)
     res.floor("transfer flows examined", n_flows, 30)
@@ -202,27 +202,76 @@ def fresh_depth(v, fn_node, depth=0):
     return 0
 
 
-def check_copy(res, cp, cname):
+CONVERTER_OF = {"Hypergraph": "to_hypergraph", "DiHypergraph": "to_dihypergraph", "SimplicialComplex": "to_simplicial_complex"}
+
+
+def check_copy(res, cp, cname, repo=None):
     src = cp.params[0]
     new = None
+    delegated = False
     for st in own_statements(cp.node):
         if isinstance(st, ast.Assign) and isinstance(st.value, ast.Call) and isinstance(st.value.func, ast.Attribute) and st.value.func.attr == "__class__" and isinstance(st.targets[0], ast.Name):
             new = st.targets[0].id
+            delegated = bool(st.value.args) and isinstance(st.value.args[0], ast.Name) and st.value.args[0].id == src
     ok = new is not None
     res.inst("A3", f"{cp.qualname} (as {cname}) builds the result with self.__class__()", ok)
     if not ok:
         res.add(mk_finding(PROP, "A3", cp, cp.node, f"{cp.qualname} does not build its result with self.__class__() (a subclass or the instance-level freeze shadows would be mishandled)", role=cname))
         return 0
-    vnames = view_names(cp.node, src)
-    calls, assigns = transfer_sites(cp.node, new)
+    if delegated and repo is not None:
+        # copy() hands the source to the constructor: the transfer is the network branch of the converter the
+        # constructor delegates to, and copy()'s stronger obligation (nested attribute values are not shared) applies
+        # to the flows of that branch
+        conv = None
+        for mi in repo.modules.values():
+            if CONVERTER_OF.get(cname) in mi.functions:
+                conv = mi.functions[CONVERTER_OF[cname]]
+        if conv is None:
+            raise AnalysisError(f"{cp.qualname} delegates to the constructor but {CONVERTER_OF.get(cname)} was not found (anchor vanished)")
+        datap = conv.params[0]
+        branch = None
+        for st in ast.walk(conv.node):
+            if isinstance(st, ast.If) and isinstance(st.test, ast.Call) and getattr(st.test.func, "id", None) == "isinstance" and len(st.test.args) == 2 and isinstance(st.test.args[0], ast.Name) and st.test.args[0].id == datap and cname in unparse(st.test.args[1], 80).replace("(", " ").replace(")", " ").replace(",", " ").split():
+                branch = st
+                break
+        if branch is None:
+            raise AnalysisError(f"{conv.qualname}: no isinstance({datap}, {cname}) branch (extractor does not recognise the code)")
+        bnew = None
+        for st in branch.body:
+            if isinstance(st, ast.Assign) and len(st.targets) == 1 and isinstance(st.targets[0], ast.Name) and isinstance(st.value, ast.Call):
+                bnew = st.targets[0].id
+                break
+        if bnew is None:
+            raise AnalysisError(f"{conv.qualname}: the {cname} branch does not create the new network in a local (extractor does not recognise the code)")
+        pseudo = ast.FunctionDef(name=conv.name, args=conv.node.args, body=branch.body, decorator_list=[], returns=None, type_comment=None, type_params=[])
+        ast.copy_location(pseudo, branch)
+        n, called, assigned, filled = _check_transfer(res, conv, pseudo, datap, bnew, cname, via=f"{cp.qualname} -> {cname}(self) -> ")
+        _, own_assigns = transfer_sites(cp.node, new)
+        assigned |= {a for _, a in own_assigns}
+        for st, attr in own_assigns:
+            for node, parent in (source_attr_exprs(st.value, src, view_names(cp.node, src)) or []):
+                ok = wrapped_in(node, parent, {"deepcopy"})
+                res.inst("A1-DEEP", f"{cp.qualname}:{st.lineno} `{unparse(node, 30)}` -> {new}.{attr}", ok)
+                if not ok:
+                    res.add(mk_finding(PROP, "A1-DEEP", cp, st, f"{cp.qualname}: `{unparse(node, 40)}` is assigned to the copy's {attr} without deepcopy; the two networks would share it", role=f"{cname}:{attr}"))
+        return n + _completeness(res, cp, cname, called, assigned, filled, [])
+    n, called, assigned, filled, calls = _check_transfer(res, cp, cp.node, src, new, cname, want_calls=True)
+    return n + _completeness(res, cp, cname, called, assigned, filled, calls)
+
+
+def _check_transfer(res, cp, fnode, src, new, cname, via="", want_calls=False):
+    """A1-DEEP / A1-STRUCT over the statements of fnode that move state from `src` into `new`."""
+    qual = via + cp.qualname
+    vnames = view_names(fnode, src)
+    calls, assigns = transfer_sites(fnode, new)
     n = 0
     for st, c in calls:
         for node, parent in source_attr_exprs(c, src, vnames):
             n += 1
             ok = wrapped_in(node, parent, {"deepcopy"})
-            res.inst("A1-DEEP", f"{cp.qualname}:{st.lineno} `{unparse(node, 30)}` -> {new}.{c.func.attr}", ok)
+            res.inst("A1-DEEP", f"{qual}:{st.lineno} `{unparse(node, 30)}` -> {new}.{c.func.attr}", ok)
             if not ok:
-                res.add(mk_finding(PROP, "A1-DEEP", cp, st, f"{cp.qualname}: the source's attribute dict `{unparse(node, 40)}` flows into the copy through {c.func.attr}() without deepcopy; nested attribute values would be shared between the two networks", role=f"{cname}:{c.func.attr}"))
+                res.add(mk_finding(PROP, "A1-DEEP", cp, st, f"{qual}: the source's attribute dict `{unparse(node, 40)}` flows into the copy through {c.func.attr}() without deepcopy; nested attribute values would be shared between the two networks", role=f"{cname}:{c.func.attr}"))
     for st, attr in assigns:
         found = source_attr_exprs(st.value, src, vnames)
         if isinstance(st.value, ast.Attribute) and st.value.attr == "_net_attr":
@@ -230,39 +279,46 @@ def check_copy(res, cp, cname):
         for node, parent in found:
             n += 1
             ok = wrapped_in(node, parent, {"deepcopy"})
-            res.inst("A1-DEEP", f"{cp.qualname}:{st.lineno} `{unparse(node, 30)}` -> {new}.{attr}", ok)
+            res.inst("A1-DEEP", f"{qual}:{st.lineno} `{unparse(node, 30)}` -> {new}.{attr}", ok)
             if not ok:
-                res.add(mk_finding(PROP, "A1-DEEP", cp, st, f"{cp.qualname}: `{unparse(node, 40)}` is assigned to the copy's {attr} without deepcopy; the two networks would share it", role=f"{cname}:{attr}"))
+                res.add(mk_finding(PROP, "A1-DEEP", cp, st, f"{qual}: `{unparse(node, 40)}` is assigned to the copy's {attr} without deepcopy; the two networks would share it", role=f"{cname}:{attr}"))
     # direct fills of the copy's tables (new._edge[idx] = ...): the stored value must be fresh down to the member sets
-    direct = direct_fills(cp.node, new, src)
+    direct = direct_fills(fnode, new, src)
     depth_needed = 2 if cname == "DiHypergraph" else 1
     filled = set()
     for st, table, key, val, loop in direct:
         n += 1
         if table in ("_node_attr", "_edge_attr"):
             ok = isinstance(val, ast.Call) and getattr(val.func, "id", getattr(val.func, "attr", None)) == "deepcopy" or _is_factory(val)
-            res.inst("A1-DEEP", f"{cp.qualname}:{st.lineno} `{unparse(val, 30)}` -> {new}.{table}[...]", ok)
+            res.inst("A1-DEEP", f"{qual}:{st.lineno} `{unparse(val, 30)}` -> {new}.{table}[...]", ok)
             if not ok:
-                res.add(mk_finding(PROP, "A1-DEEP", cp, st, f"{cp.qualname}: `{unparse(val, 40)}` is stored in the copy's {table} without deepcopy; nested attribute values would be shared between the two networks", role=f"{cname}:{table}"))
+                res.add(mk_finding(PROP, "A1-DEEP", cp, st, f"{qual}: `{unparse(val, 40)}` is stored in the copy's {table} without deepcopy; nested attribute values would be shared between the two networks", role=f"{cname}:{table}"))
         else:
-            d = fresh_depth(val, cp.node)
+            d = fresh_depth(val, fnode)
             ok = d >= depth_needed
-            res.inst("A1-STRUCT", f"{cp.qualname}:{st.lineno} `{unparse(val, 30)}` -> {new}.{table}[...] is fresh to depth {d} (needed {depth_needed})", ok)
+            res.inst("A1-STRUCT", f"{qual}:{st.lineno} `{unparse(val, 30)}` -> {new}.{table}[...] is fresh to depth {d} (needed {depth_needed})", ok)
             if not ok:
                 what = "the tail and head sets inside it are still the source's own sets" if depth_needed == 2 and d == 1 else "the stored object is the source's own"
-                res.add(mk_finding(PROP, "A1-STRUCT", cp, st, f"{cp.qualname}: `{unparse(val, 40)}` stored in the copy's {table} is not copied deeply enough ({what}); adding or removing a member in one network changes the other", role=f"{cname}:{table}"))
+                res.add(mk_finding(PROP, "A1-STRUCT", cp, st, f"{qual}: `{unparse(val, 40)}` stored in the copy's {table} is not copied deeply enough ({what}); adding or removing a member in one network changes the other", role=f"{cname}:{table}"))
         if loop is not None and isinstance(loop.iter, ast.Call) and isinstance(loop.iter.func, ast.Attribute) and loop.iter.func.attr == "items" and isinstance(loop.iter.func.value, ast.Attribute) and loop.iter.func.value.attr == table and isinstance(loop.iter.func.value.value, ast.Name) and loop.iter.func.value.value.id == src:
             if isinstance(loop.target, ast.Tuple) and isinstance(loop.target.elts[0], ast.Name) and isinstance(key, ast.Name) and key.id == loop.target.elts[0].id:
                 filled.add(table)
     if "_edge" in filled:
         # the node side must be mirrored in the same function
-        mirrored = any(isinstance(c, ast.Call) and isinstance(c.func, ast.Attribute) and c.func.attr == "add" and f"{new}._node[" in unparse(c.func.value, 80) for c in ast.walk(cp.node))
-        res.inst("A3", f"{cp.qualname} (as {cname}) mirrors the directly filled edges in the copy's node table", mirrored)
+        mirrored = any(isinstance(c, ast.Call) and isinstance(c.func, ast.Attribute) and c.func.attr == "add" and f"{new}._node[" in unparse(c.func.value, 80) for c in ast.walk(fnode))
+        res.inst("A3", f"{qual} (as {cname}) mirrors the directly filled edges in the copy's node table", mirrored)
         if not mirrored:
-            res.add(mk_finding(PROP, "A3", cp, cp.node, f"{cp.qualname} fills the copy's _edge table directly but never records the memberships in its _node table", role=f"{cname}:mirror"))
-    # A3: completeness
+            res.add(mk_finding(PROP, "A3", cp, fnode, f"{qual} fills the copy's _edge table directly but never records the memberships in its _node table", role=f"{cname}:mirror"))
     called = {c.func.attr for _, c in calls}
     assigned = {a for _, a in assigns}
+    if want_calls:
+        return n, called, assigned, filled, calls
+    return n, called, assigned, filled
+
+
+def _completeness(res, cp, cname, called, assigned, filled, calls):
+    n = 0
+    # A3: completeness
     need = [("nodes", bool(called & {"add_nodes_from"}) or "_node" in filled), ("edges", bool(called & {"add_edges_from", "add_simplices_from"}) or "_edge" in filled), ("_net_attr", "_net_attr" in assigned), ("_edge_uid", "_edge_uid" in assigned)]
     for what, ok in need:
         n += 1
